@@ -77,6 +77,27 @@ def run(ctx):
             c = mk_case("c09_%d" % i, cmds, scripts, lim=rng.choice([U24_MAX, U24_MAX, 300]))
             c.meta["expect"] = exp
             cases.append(c)
+    # consecutive resultset headers (and prepare replies) on one connection that differ in ONE attribute only
+    base = [dict(table=b"t", name=b"id", type=3, flags=0), dict(table=b"t", name=b"v", type=253, flags=0)]
+    variants = [base,
+                [dict(c, flags=f) for c, f in zip(base, (35, 1))],                 # flags only
+                [dict(c, type=ty) for c, ty in zip(base, (8, 252))],              # types only
+                [dict(c, table=b"u") for c in base],                             # table only
+                [dict(base[0], name=b"ID"), base[1]],                            # name case only
+                base]
+    for order in (variants, variants[::-1], [variants[1], variants[0], variants[1]]):
+        i += 1
+        cmds, scripts, exp = [], [], []
+        for v in order:
+            if rng.random() < 0.7:
+                cmds.append(("query", cmd_query(b"q"))); scripts.append("q start %s fin" % progs.cols_tok(v)); exp.append(("rows", v))
+            else:
+                cmds.append(("prepare", cmd_prepare(b"p"))); scripts.append("p reply 3 %s %s" % (progs.cols_tok(v), progs.cols_tok(v))); exp.append(("prep", 3, v, v))
+        if exp[-1][0] != "prep":
+            cmds.append(("prepare", cmd_prepare(b"p"))); scripts.append("p reply 3 0 %s" % progs.cols_tok(order[-1])); exp.append(("prep", 3, [], order[-1]))
+        c = mk_case("c09_%d" % i, cmds, scripts)
+        c.meta["expect"] = exp
+        cases.append(c)
     # parameter / column counts that are exact multiples of 256 (one-byte counters wrap to where they started)
     for (np_, nc_) in ((256, 1), (1, 256), (256, 256), (512, 3), (0, 512)):
         i += 1
